@@ -6,6 +6,7 @@ import (
 	"context"
 	"fmt"
 	"io"
+	"reflect"
 	"runtime"
 	"sort"
 	"strings"
@@ -356,6 +357,129 @@ func c17Prefill(w *c17SMWorld, n int) ([]string, bool) {
 
 var c17TrialSeq atomic.Int64
 
+// c17Pending reads SessionManager.connPending (slots reserved by admissions in flight)
+// if the tree has such a field; ok=false otherwise. At quiescence it must be 0.
+func (w *c17SMWorld) pending() (int64, bool) {
+	f := reflect.ValueOf(w.sm).Elem().FieldByName("connPending")
+	if !f.IsValid() || !f.CanInt() {
+		return 0, false
+	}
+	w.sm.connLock.RLock()
+	defer w.sm.connLock.RUnlock()
+	return f.Int(), true
+}
+
+type c17FailCase struct {
+	Limit      int  `json:"limit"`
+	Prefill    int  `json:"prefill"`
+	Failing    int  `json:"failing_admissions"`
+	Valid      int  `json:"valid_admissions_racing"`
+	Concurrent bool `json:"concurrent"`
+}
+
+type c17FailOutcome struct {
+	Case         c17FailCase `json:"case"`
+	FailedSeen   int         `json:"admissions_that_failed_after_passing_the_cap_check"`
+	PendingAfter int64       `json:"connPending_at_quiescence"`
+	SizeAfter    int         `json:"connmap_size_after_failures"`
+	SizeFilled   int         `json:"connmap_size_after_filling_to_cap"`
+	FillAdmitted int         `json:"admitted_while_filling"`
+}
+
+// c17FailedAdmissionTrial: admissions that pass the capacity check and then fail (the
+// transport supplies a connection id whose stream already exists, so CreateStream
+// refuses it), sequentially or racing with valid admissions; afterwards the server is
+// filled until it refuses. Oracle: a failed admission changes nothing (maps, reserved
+// slots), and the cap still holds afterwards.
+func c17FailedAdmissionTrial(run *vk.Run, cs c17FailCase) {
+	w := c17NewSMWorld(cs.Limit)
+	defer w.close()
+	tn := c17TrialSeq.Add(1)
+	if _, ok := c17Prefill(w, cs.Prefill); !ok {
+		run.Count("maxconn_prefill_refused", 1)
+		return
+	}
+	// one live connection whose id the failing admissions will reuse
+	dupID := fmt.Sprintf("c17-t%d-dupe", tn)
+	if _, err := w.sm.CreateConnection(&c17Reader{id: dupID}, c17Writer{}); err != nil {
+		run.Count("maxconn_prefill_refused", 1)
+		return
+	}
+	run.Case("maxconn-failed-admission", cs)
+	out := c17FailOutcome{Case: cs}
+	if !cs.Concurrent {
+		for i := 0; i < cs.Failing; i++ {
+			k0, s0 := w.connKeys(), w.streamKeys()
+			p0, hasP := w.pending()
+			c, err := w.sm.CreateConnection(&c17Reader{id: dupID}, c17Writer{})
+			if err == nil && c != nil {
+				continue // the tree accepts a duplicate id: nothing failed, nothing to judge
+			}
+			out.FailedSeen++
+			k1, s1 := w.connKeys(), w.streamKeys()
+			p1, _ := w.pending()
+			if strings.Join(k0, ",") != strings.Join(k1, ",") || strings.Join(s0, ",") != strings.Join(s1, ",") || (hasP && p0 != p1) {
+				ex, mi := c17Diff(k1, k0)
+				sx, sm := c17Diff(s1, s0)
+				run.Violation("C17:maxconn|failed-admission-changed-state", map[string]any{"case": cs, "error": err.Error(),
+					"connMap_extra": ex, "connMap_missing": mi, "streams_extra": sx, "streams_missing": sm,
+					"connPending_before": p0, "connPending_after": p1})
+			}
+		}
+	} else {
+		var spin c17Spin
+		var wg sync.WaitGroup
+		var failed atomic.Int32
+		n := cs.Failing + cs.Valid
+		for i := 0; i < n; i++ {
+			wg.Add(1)
+			go func(i int) {
+				defer wg.Done()
+				id := dupID
+				if i >= cs.Failing {
+					id = fmt.Sprintf("c17-t%d-v%d", tn, i)
+				}
+				spin.wait()
+				c, err := w.sm.CreateConnection(&c17Reader{id: id}, c17Writer{})
+				if i < cs.Failing && (err != nil || c == nil) {
+					failed.Add(1)
+				}
+			}(i)
+		}
+		okBarrier := spin.release(n)
+		wg.Wait()
+		if !okBarrier {
+			run.Count("watchdog", 1)
+			return
+		}
+		out.FailedSeen = int(failed.Load())
+	}
+	// quiescence: nothing is in flight, so no slot may be reserved (or owed)
+	out.SizeAfter = len(w.connKeys())
+	if p, ok := w.pending(); ok {
+		out.PendingAfter = p
+		run.Count("maxconn_pending_read_at_quiescence", 1)
+		if p != 0 {
+			run.Violation("C17:maxconn|reserved-slots-nonzero-at-quiescence", out)
+		}
+	}
+	// fill until refused (bounded): the cap must still be the configured one
+	for i := 0; i < cs.Limit+cs.Failing+3; i++ {
+		if _, err := w.sm.CreateConnection(&c17Reader{id: fmt.Sprintf("c17-t%d-fill%d", tn, i)}, c17Writer{}); err != nil {
+			break
+		}
+		out.FillAdmitted++
+	}
+	out.SizeFilled = len(w.connKeys())
+	run.Eval(1)
+	run.Count("maxconn_failed_admissions_checked", int64(out.FailedSeen))
+	run.Distinct(fmt.Sprintf("maxconn|failed|L%d|P%d|F%d|V%d|conc%v|failed%d|filled%d", cs.Limit, cs.Prefill, cs.Failing, cs.Valid, cs.Concurrent, out.FailedSeen, out.SizeFilled))
+	run.Sample(out)
+	if out.SizeAfter > cs.Limit || out.SizeFilled > cs.Limit {
+		run.Violation("C17:maxconn|exceeded|after-failed-admissions", out)
+	}
+}
+
 // c17ConnTrial: real goroutines; racers are held inside the window by the gate.
 func c17ConnTrial(run *vk.Run, cs c17ConnCase) {
 	w := c17NewSMWorld(cs.Limit)
@@ -428,9 +552,11 @@ func TestVerifC17MaxConn(t *testing.T) {
 	run.Rule("SessionManager.CreateConnection with MaxConnections=L in {0,1,2,5}: fill to L-1 (or L-2), then N in {2,8,32} concurrent CreateConnection calls. " +
 		"mode hold: the connections carry their own id, and the reader's GetConnectionID (called by the real code between the capacity check and the insert) holds racers until K in {2..N} are inside that window; " +
 		"mode free: id-less readers (UUID path), spin barrier only; mode explore: N in {2,3} under vk.Explore (gate = GetConnectionID), all schedules with <=2 (thorough: 3) preemptions. " +
+		"failed admissions: 1-3 admissions pass the cap check and then fail in CreateStream (the transport supplies the id of a live connection), sequentially with snapshot-diff around each, or racing with valid admissions; then fill until refused; reserved slots must be 0 at quiescence. " +
 		"distinct = (mode, L, prefill, N, K, admitted, racers inside the window)")
 	run.Floor("maxconn_trials_2plus_in_window", 100)
 	run.Floor("maxconn_refusals_checked", 50)
+	run.Floor("maxconn_failed_admissions_checked", 50)
 	reps := run.Pick(200, 4000)
 	r := run.Rand("maxconn")
 	for _, L := range c17Limits {
@@ -458,6 +584,19 @@ func TestVerifC17MaxConn(t *testing.T) {
 				}
 				c17ConnTrial(run, cs)
 			}
+		}
+	}
+
+	// admissions that fail after the capacity check (duplicate transport-supplied id)
+	failReps := run.Pick(40, 800)
+	for _, L := range []int{2, 5} { // L=1: the duplicated connection alone fills the cap
+		for rep := 0; rep < failReps && run.Violations() < 20; rep++ {
+			// prefill + the duplicated connection stay below the cap, so the failing admissions pass the check
+			cs := c17FailCase{Limit: L, Failing: 1 + rep%3, Prefill: r.Intn(L - 1)}
+			if rep%2 == 1 {
+				cs.Concurrent, cs.Valid = true, 1+r.Intn(4)
+			}
+			c17FailedAdmissionTrial(run, cs)
 		}
 	}
 
